@@ -13,8 +13,10 @@ if (cd $W/tree && patch -p1 -s --no-backup-if-mismatch < $S/patch.diff) >/dev/nu
 if $applied; then
   /verif/tools/baseline.sh $W/tree > $W/baseline.txt 2>&1 && tests_ok=true
   if [ -f $S/build_demo.sh ]; then
-    (cd $S && timeout 300 bash ./build_demo.sh $W/clean) > $W/demo_clean.txt 2>&1; demo_clean=$?
-    (cd $S && timeout 300 bash ./build_demo.sh $W/tree) > $W/demo_mut.txt 2>&1; demo_mut=$?
+    N=$(basename $S)
+    mkdir -p $W/clean/seeds $W/tree/seeds; cp -a $S $W/clean/seeds/$N; cp -a $S $W/tree/seeds/$N
+    (cd $W/clean/seeds/$N && timeout 600 bash ./build_demo.sh $W/clean) > $W/demo_clean.txt 2>&1; demo_clean=$?
+    (cd $W/tree/seeds/$N && timeout 600 bash ./build_demo.sh $W/tree) > $W/demo_mut.txt 2>&1; demo_mut=$?
   fi
 fi
 res=""
